@@ -3,6 +3,9 @@
 //!        ebml-sim replay <file>
 //!        ebml-sim selfcheck
 
+// (helpers kept for replay files and debugging are not all used by every build)
+#![allow(dead_code, unused_parens, unused_mut, unused_imports, unused_assignments)]
+
 mod alloc;
 mod cases;
 mod checks;
